@@ -1,4 +1,5 @@
 import Driver.HTable
+import Driver.Mutex
 import Driver.Ledger
 import Driver.TQ
 import Driver.Atoi
@@ -10,10 +11,13 @@ import Driver.X86
 import Driver.MemPool
 import Driver.StackGeom
 import Driver.KTable
+import Driver.UnitMap
+import Driver.UserPool
 
 def main (args : List String) : IO UInt32 := do
   match args with
   | ["htable"] => Driver.HTable.main; return 0
+  | ["mutex"] => Driver.Mutex.main; return 0
   | ["ledger"] => Driver.Ledger.main; return 0
   | ["tq"] => Driver.TQ.mainTQ; return 0
   | ["pool", kind] => Driver.TQ.mainPool kind
@@ -26,4 +30,6 @@ def main (args : List String) : IO UInt32 := do
   | ["mempool"] => Driver.MemPool.main; return 0
   | ["stackgeom"] => Driver.StackGeom.main; return 0
   | ["ktable"] => Driver.KTable.main; return 0
+  | ["unitmap"] => Driver.UnitMap.main; return 0
+  | ["userpool"] => Driver.UserPool.main; return 0
   | _ => IO.eprintln "usage: driver <model>  (htable)"; return 2
